@@ -104,20 +104,19 @@ Qed.
 
 Lemma exec_scalar_default_spec : forall c sid dsid m, cache_ok c -> op_ok (ScalarDefault sid dsid m) = true ->
   snd (exec_scalar_default c sid dsid m) =
-    bind (spec_exec (flag_or c sid m) m (stmts sid)) (fun _ => Ok (compile_plain (stmts dsid))).
+    spec_scalar_default quote (flag_or c sid m) m (stmts sid) (stmts dsid).
 Proof.
   intros c sid dsid m Hc Ho. cbn [SchemaTr.op_ok] in Ho. apply andb_prop in Ho. destruct Ho as [Ho Hp].
   apply andb_prop in Ho. destruct Ho as [Hm Hf]. apply negb_true_iff in Hp.
-  pose proof (get_compiled_spec c sid m Hc) as G. unfold SchemaTr.exec_scalar_default.
+  pose proof (get_compiled_spec c sid m Hc) as G. unfold SchemaTr.exec_scalar_default, spec_scalar_default.
   destruct (get_compiled c sid m) as [[c' [[inc t]|]]|e]; cbn [snd].
-  - destruct G as (He & -> & Ht & _). rewrite (render_governed _ m sid t He Hm Hf Ht).
-    destruct (spec_exec (flag_or c sid m) m (stmts sid)) as [u|e] eqn:Es; cbn [bind]; [|reflexivity].
-    unfold SchemaTr.render_translates.
-    destruct (has_none m && negb (flag_or c sid m)) eqn:Hn.
-    + unfold SchemaTr.spec_exec in Es. rewrite He, Hn in Es. destruct (bracketed (stmts sid)); discriminate Es.
-    + apply scan_plain, Hp.
-  - destruct G as [_ He]. unfold SchemaTr.spec_exec. rewrite He. reflexivity.
-  - destruct G as (-> & He & Hb & _). unfold SchemaTr.spec_exec. rewrite He, Hb. reflexivity.
+  - destruct G as (He & -> & Ht & _). rewrite He.
+    destruct (bracketed (stmts sid)) eqn:Hb.
+    + apply (bracket_rejected quote (flag_or c sid m)) in Hb. rewrite Hb in Ht. discriminate Ht.
+    + unfold SchemaTr.render_translates. destruct (has_none m && negb (flag_or c sid m)); [reflexivity|].
+      apply scan_plain, Hp.
+  - destruct G as [_ He]. rewrite He. reflexivity.
+  - destruct G as (-> & He & Hb & _). rewrite He, Hb. reflexivity.
 Qed.
 
 (* ---- the cache after a history and the governing compilation ---- *)
@@ -232,7 +231,7 @@ Qed.
 
 Theorem history_scalar_default : forall pre sid dsid m post, op_ok (ScalarDefault sid dsid m) = true ->
   nth (length pre) (run_hist [] (pre ++ ScalarDefault sid dsid m :: post)) None
-  = Some (bind (spec_exec (gov_flag pre sid m) m (stmts sid)) (fun _ => Ok (compile_plain (stmts dsid)))).
+  = Some (spec_scalar_default quote (gov_flag pre sid m) m (stmts sid) (stmts dsid)).
 Proof.
   intros pre sid dsid m post Ho. rewrite run_hist_nth. cbn [SchemaTr.step].
   destruct (cache_after_inv pre [] cache_ok_nil) as [Hc _].
